@@ -366,7 +366,7 @@ def function(draw, lang, fid, name, cls=None, kind="func", max_params=3, for_for
 
 @st.composite
 def library(draw, lang=None, nfunc=(4, 10), for_fortran=True, with_class=None, rows=None, results=None, types=None,
-            ovl_sigs=None, with_overloads=None):
+            ovl_sigs=None, with_overloads=None, with_template=None):
     lang = lang or draw(st.sampled_from(["c++", "c++", "c"]))
     lib = dict(name="XLib", language=lang, funcs=[], classes=[], cheader="xlib.hpp" if lang == "c++" else "xlib.h")
     n = draw(st.integers(*nfunc))
@@ -384,6 +384,13 @@ def library(draw, lang=None, nfunc=(4, 10), for_fortran=True, with_class=None, r
     if for_fortran and rows is None and draw(st.booleans()):
         lib["funcs"].append(draw(pointer_func(lang, fid, "ptrFunc", for_fortran)))
         fid += 1
+    if lang == "c++" and rows is None and results is None and types is None and \
+            (with_template or (with_template is None and for_fortran and draw(st.integers(0, 2)) == 0)):
+        if with_template == "ptr-result" and not for_fortran:
+            with_template = "result"          # the pointer-with-hidden-extent rows belong to the Fortran front
+        grp = draw(template_group(lang, fid, "tmplFunc", for_fortran, with_template or None))
+        lib["funcs"] += grp
+        fid += len(grp)
     wc = (lang == "c++") and (draw(st.booleans()) if with_class is None else with_class)
     if wc:
         lib["classes"].append(draw(klass(lang, fid, "Cls1", for_fortran, results, types, rows)))
@@ -485,6 +492,71 @@ def pointer_func(draw, lang, fid, name, for_fortran=True):
         outs["rv" if as_result else "grid"] = dict(shape=shape, data=data)
         f["calls"].append(dict(inputs={}, outputs=outs))
     return f
+
+
+TMPL_SHAPES = ["arg", "arg+plain", "result", "two", "ptr-result"]
+TMPL_SINGLE = ["int", "double", "long", "float"]
+TMPL_PAIRS = [("int", "double"), ("double", "int"), ("long", "float"), ("float", "double"), ("int", "long")]
+
+
+@st.composite
+def template_group(draw, lang, fid, name, for_fortran=True, shape=None):
+    """templates.rst / tutorial.rst 'Templates': a function template with its cxx_template instantiations.  Every
+    instantiation is one function of the model (its own C name with the documented suffix: _<type> for one
+    template argument, the sequence number for several; one Fortran generic unless the result is templated).
+    Shapes: templated argument, plus ordinary arguments around it, templated result, two type parameters with the
+    result named after the second one, templated pointer result with +dimension (hidden extent)."""
+    shape = shape or draw(st.sampled_from(TMPL_SHAPES))
+    if shape == "two":
+        insts = draw(st.lists(st.sampled_from(TMPL_PAIRS), min_size=1, max_size=2, unique=True))
+        header = "template<typename T, typename U>"
+    else:
+        insts = [(t,) for t in draw(st.lists(st.sampled_from(TMPL_SINGLE if shape != "ptr-result" else ["int", "double", "long"]),
+                                             min_size=1, max_size=2, unique=True))]
+        header = "template<typename T>"
+    lead = draw(st.booleans())
+    funcs = []
+    for i, targs in enumerate(insts):
+        T = targs[0]
+        U = targs[-1]
+        ret = None
+        attrs = ""
+        if shape == "arg":
+            gen = [("T", "a0")]
+        elif shape == "arg+plain":
+            gen = ([("double", "lead")] if lead else []) + [("T", "a0"), ("int", "slot")]
+        elif shape == "result":
+            gen = [("int", "slot")]
+            ret = ("T", dict(row="N", T=T, ctype=T, attrs=""))
+        elif shape == "two":
+            gen = [("T", "a0"), ("U", "a1")]
+            ret = ("U", dict(row="N", T=U, ctype=U, attrs=""))
+        else:
+            gen = []
+            ret = ("T *", dict(row="P", T=T, ctype="%s *" % T, attrs="+dimension(nx)", rank=1))
+            attrs = " +dimension(nx)"
+        conc = {"T": T, "U": U}
+        params = [P(n, "N1", conc.get(g, g), "%s %s" % (conc.get(g, g), n)) for g, n in gen]
+        gtexts = ["%s %s" % (g, n) for g, n in gen]
+        if shape == "ptr-result":
+            params.append(P("nx", "H1out", "int", "int *nx", "+intent(out)+hidden", "out"))
+            gtexts.append("int *nx +intent(out)+hidden")
+        suffix = ("_" + T) if len(targs) == 1 else "_%d" % i
+        f = dict(name=name, fid=fid + i, cls=None, kind="func", params=params, ret=(ret[1] if ret else None), const=False,
+                 suffix=None, calls=[],
+                 tmpl=dict(header=header, inst="<%s>" % ", ".join(targs), index=i, ninst=len(insts), suffix=suffix, shape=shape,
+                           generic_decl="%s %s(%s)%s" % (ret[0] if ret else "void", name, ", ".join(gtexts), attrs),
+                           generic_proto="%s %s(%s)" % (ret[0] if ret else "void", name,
+                                                        ", ".join(t.split(" +")[0] for t in gtexts)),
+                           templated_result=ret is not None))
+        for _ in range(draw(st.integers(2, 3))):
+            if shape == "ptr-result":
+                n = draw(st.sampled_from([1, 2, 3]))
+                f["calls"].append(dict(inputs={}, outputs={"nx": n, "rv": dict(shape=[n], data=[draw(value_of(T, for_fortran)) for _j in range(n)])}))
+            else:
+                f["calls"].append(draw(call_vector(f, for_fortran)))
+        funcs.append(f)
+    return funcs
 
 
 @st.composite
@@ -620,6 +692,12 @@ def to_yaml(lib, options=None):
     if lib_uses_enum(lib):
         decls.append({"decl": ENUM_DECL})
     for f in lib["funcs"]:
+        if f.get("tmpl"):
+            if f["tmpl"]["index"] == 0:
+                grp = [g for g in lib["funcs"] if g.get("tmpl") and g["name"] == f["name"]]
+                decls.append({"decl": f["tmpl"]["header"] + " " + f["tmpl"]["generic_decl"],
+                              "cxx_template": [{"instantiation": g["tmpl"]["inst"]} for g in grp]})
+            continue
         decls.append(fdecl(f))
     for c in lib.get("classes", []):
         inner = []
@@ -1134,6 +1212,18 @@ extern "C" void vf_live_report(void) { printf("LIVE %d\\n", vf_live_count); fflu
         impl.append('extern "C" void vf_oo_%s(int slot, void *p) { if (slot < 0) printf("O rv o %%d\\n", ((%s *) p)->vf_serial); else printf("O %%d o %%d\\n", slot, ((%s *) p)->vf_serial); fflush(stdout); }' % (nm, nm, nm))
     for f in lib["funcs"]:
         proto = decl_text_plain(f)
+        if f.get("tmpl"):
+            # the template is declared once; each instantiation the YAML lists is an explicit specialisation
+            # holding the scripted body of that instantiation
+            t = f["tmpl"]
+            if t["index"] == 0:
+                hdr.append("%s %s;" % (t["header"], t["generic_proto"]))
+            r = f["ret"]
+            spec = "template<> %s %s%s(%s)" % (r["ctype"] if r else "void", f["name"], t["inst"],
+                                               ", ".join(p["ctype"] for p in f["params"]))
+            hdr.append(spec + ";")
+            impl.append("%s\n{\n%s\n}" % (spec, "\n".join(body_lines(f))))
+            continue
         hdr.append(decl_text_plain(f, defaults=True) + ";")
         impl.append("%s\n{\n%s\n}" % (proto, "\n".join(body_lines(f))))
     hdr.append("#endif")
